@@ -26,6 +26,12 @@
 (*              their temp file ("tickfail" / "stopfail") among good ones, *)
 (*              one push per flush, over directories found with event      *)
 (*              files and leftover temp files below, at and beyond the cap *)
+(*  "noroom"    the log machine: the current file is taken to its limit,   *)
+(*              the file system runs out of room ("noroom"), writes go on  *)
+(*              (the first one rolls), room comes back ("room") after at   *)
+(*              least two of them                                          *)
+(*  "dumpblind" the dump machine: rule-set changes with the directory      *)
+(*              listing failing ("blind") and working again ("unblind")    *)
 (*  "shortruns" the log machine doing (one write of one unit, restart)     *)
 (*              again and again from directories an earlier run can have   *)
 (*              left (room for the current file): a crash loop             *)
@@ -41,6 +47,8 @@ GenMachine == CASE GenMode = "evstop" -> "event"
                 [] GenMode = "rollkill" -> "log"
                 [] GenMode = "evfail" -> "event"
                 [] GenMode = "shortruns" -> "log"
+                [] GenMode = "noroom" -> "log"
+                [] GenMode = "dumpblind" -> "dumps"
                 [] OTHER -> GenMode
 GenDepth == IF "GEN_DEPTH" \in DOMAIN IOEnv THEN atoi(IOEnv.GEN_DEPTH) ELSE 12
 
@@ -48,14 +56,15 @@ GenDepth == IF "GEN_DEPTH" \in DOMAIN IOEnv THEN atoi(IOEnv.GEN_DEPTH) ELSE 12
 \* refused: the write is expected to be refused (roll needed while the rename fails)
 After(o, k, jj) == [op |-> o, n |-> k, j |-> jj, arch |-> arch', cur |-> cur', ev |-> evFiles', tmp |-> evTmp',
                 q |-> evQueue', wrote |-> IF evFiles' > evFiles THEN evQueue ELSE 0, dumps |-> dumps',
-                refused |-> (o = "write" /\ ShouldRoll /\ rollFails), pin |-> rollFails', run |-> evRun']
+                refused |-> (o = "write" /\ ((ShouldRoll /\ rollFails) \/ noRoom)), noroom |-> noRoom',
+                blind |-> listFails', pin |-> rollFails', run |-> evRun']
 Log(o, k) == hist' = Append(hist, After(o, k, 0))
 LogJ(o, k, jj) == hist' = Append(hist, After(o, k, jj))
 
 GInit == /\ Init
          /\ (GenMode = "shortruns" => logLegal)
          /\ hist = << [op |-> "init", n |-> 0, j |-> 0, arch |-> arch, cur |-> cur, ev |-> evFiles, tmp |-> evTmp, q |-> 0,
-                       wrote |-> 0, dumps |-> dumps, refused |-> FALSE, pin |-> FALSE, run |-> TRUE] >>
+                       wrote |-> 0, dumps |-> dumps, refused |-> FALSE, noroom |-> FALSE, blind |-> FALSE, pin |-> FALSE, run |-> TRUE] >>
 
 Unpinned == \E i \in DOMAIN hist : hist[i].op = "unpin"
 Killed == \E i \in DOMAIN hist : hist[i].op = "kill"
@@ -88,19 +97,35 @@ Allowed(o) ==
            [] o = "restart" -> ~evRun
            [] o = "remove" -> evFiles + evTmp >= Cap
            [] OTHER -> FALSE
+    [] GenMode = "noroom" ->
+         CASE o = "write" -> TRUE
+           [] o = "noroom" -> cur >= Limit
+           [] o = "room" -> Len(hist) >= 3 /\ hist[Len(hist)].op = "write" /\ hist[Len(hist) - 1].op = "write"
+           [] o = "restart" -> noRoom
+           [] OTHER -> FALSE
+    [] GenMode = "dumpblind" ->
+         CASE o = "dump" -> TRUE
+           [] o = "blind" -> TRUE
+           [] o = "unblind" -> Len(hist) >= 3 /\ hist[Len(hist)].op = "dump" /\ hist[Len(hist) - 1].op = "dump"
+           [] OTHER -> FALSE
     [] GenMode = "shortruns" ->
          CASE o = "write" -> hist[Len(hist)].op # "write"
            [] o = "restart" -> hist[Len(hist)].op = "write"
            [] OTHER -> FALSE
-    [] OTHER -> o # "kill"                    \* (kills are replayed under strace: kept to the directed mode)
+    [] OTHER -> o \notin {"kill", "noroom", "blind"}                    \* (kills are replayed under strace: kept to the directed mode)
 
 GNext ==
   /\ Len(hist) <= GenDepth
   /\ \/ \E n \in 1..MaxWrite : /\ Allowed("write") /\ (GenMode = "shortruns" => n = 1)
                                /\ \/ LogWriteNoRoll(n) \/ LogWriteRollKeep(n) \/ LogWriteRollTrim(n)
                                   \/ LogWriteRollFails(n)
+                                  \/ LogWriteNoRoomNoRoll(n) \/ LogWriteNoRoomRoll(n)
                                /\ Log("write", n)
      \/ \E jj \in 0..(PreArch + 2) : Allowed("kill") /\ LogKilledInRoll(jj) /\ LogJ("kill", 1 + (jj % MaxWrite), jj)
+     \/ Allowed("noroom") /\ LogNoRoomOn /\ Log("noroom", 0)
+     \/ Allowed("room") /\ LogNoRoomOff /\ Log("room", 0)
+     \/ Allowed("blind") /\ DumpListingBreaks /\ Log("blind", 0)
+     \/ Allowed("unblind") /\ DumpListingHeals /\ Log("unblind", 0)
      \/ Allowed("pin") /\ LogFaultOn /\ Log("pin", 0)
      \/ Allowed("unpin") /\ LogFaultOff /\ Log("unpin", 0)
      \/ \E k \in 1..MaxPush : Allowed("push") /\ (EvPush(k) \/ EvPushClosed(k)) /\ Log("push", k)
@@ -109,7 +134,7 @@ GNext ==
      \/ Allowed("stop") /\ EvStop /\ Log("stop", 0)
      \/ Allowed("stopfail") /\ EvStopFails /\ Log("stopfail", 0)
      \/ \E k \in 1..2 : Allowed("remove") /\ EvReaderRemove(k) /\ Log("remove", k)
-     \/ Allowed("dump") /\ (DumpWriteKeep \/ DumpWriteTrim) /\ Log("dump", 0)
+     \/ Allowed("dump") /\ (DumpWriteKeep \/ DumpWriteTrim \/ DumpWriteSkipped) /\ Log("dump", 0)
      \/ Allowed("restart") /\ Restart /\ Log("restart", 0)
 
 GSpec == GInit /\ [][GNext]_gvars
